@@ -761,7 +761,7 @@ pub fn run(ctx: Arc<Ctx>) {
 					if zi > 0 && bxi % 4 != 0 && bxi < n_strided {
 						continue;
 					}
-					let borders: Vec<Option<u32>> = if b.is_some() { vec![None, Some(0), Some(1), Some(3), Some(2147483649), Some(u32::MAX)] } else { vec![None] };
+					let borders: Vec<Option<u32>> = if b.is_some() { vec![None, Some(0), Some(1), Some(2), Some(3), Some(4), Some(5), Some(2147483649), Some(u32::MAX)] } else { vec![None] };
 					for border in borders {
 						if border.is_some() && (bxi + flags as usize) % 3 != 0 {
 							continue;
